@@ -17,8 +17,8 @@ import time
 import vlib
 from vlib import coq_str, coq_list, canon_hash
 
-TARGETS = ["attributes", "ring", "analytic", "iface_mapped", "bilinear", "vector3d", "logical", "join", "union", "equation", "norm", "polar", "shared_bc"]
-NPERM = {"attributes": 6, "ring": 2, "analytic": 1, "iface_mapped": 2, "bilinear": 6, "vector3d": 6, "logical": 2, "join": 4, "union": 24, "equation": 24, "norm": 6, "polar": 1,
+TARGETS = ["orders", "attributes", "ring", "analytic", "iface_mapped", "bilinear", "vector3d", "logical", "join", "union", "equation", "norm", "polar", "shared_bc"]
+NPERM = {"orders": 1, "attributes": 6, "ring": 2, "analytic": 1, "iface_mapped": 2, "bilinear": 6, "vector3d": 6, "logical": 2, "join": 4, "union": 24, "equation": 24, "norm": 6, "polar": 1,
          "shared_bc": 1}
 # (class, name) -> attribute digest used by each target: what a colliding history must differ from
 TARGET_OBJS = {
@@ -31,6 +31,7 @@ TARGET_OBJS = {
     "norm": [("Domain", "Omega", "dim=2"), ("Space", "V", "scalar,dim=2,kind=None")],
     "polar": [("Mapping", "M", "dim=2")],
     "shared_bc": [],
+    "orders": [("Domain", "Omega", "dim=2"), ("Space", "V", "scalar,dim=2,kind=None"), ("Fn", "u", "V"), ("Fn", "v", "V")],
     "attributes": [("Patch", "A", "dim=2"), ("Space", "V", "scalar,dim=2,kind=None"), ("Mapping", "F", "dim=2")],
     "ring": [("Patch", "A", "dim=2"), ("Patch", "B", "dim=2")],
     # the parameters of an analytical mapping are part of its identity (they are in its expressions): the key carries them
@@ -198,6 +199,10 @@ def main(run, replay=None):
             # given order, so that a difference there is attributed to the history and not to the order)
             add(t, ops, clear_at, perm=rng.randrange(NPERM[t]) if (rng.random() < 0.3 and t != "ring") else 0,
                 hashseed=rng.choice([0] + seeds), cache=rng.random() < 0.8, label="hygienic-history", objs=objs)
+        for which in ([["big"], ["other", "big"]] if quick else [["big"], ["other"], ["other", "big"], ["big", "small", "other"]]):
+            # always present: the order / naming queries after queries about other kernels over the SAME objects
+            add("orders", [["orders", which]], [], hashseed=rng.choice([0] + seeds), label="hygienic-history",
+                objs=[("Domain", "Omega", "dim=2"), ("Space", "V", "scalar,dim=2,kind=None"), ("Fn", "u", "V"), ("Fn", "v", "V")])
         for i in range(3 if quick else 12):
             # always present: the analytical target after the same class / name with other parameter values
             ops, objs = gen_history(rng, "analytic", colliding=False)
